@@ -1334,3 +1334,7 @@ mod tests {
         }
     }
 }
+
+#[cfg(feature = "verif-hooks")]
+#[path = "verif_driver.rs"]
+mod verif_driver;
